@@ -796,6 +796,23 @@ fn cli_path_layouts(rep: &Report) {
             }
         }
     });
+    // an input whose reported size is 0 although it has content (/proc/version): both encryptors produce the conforming file
+    // of its content
+    if let Ok(data) = std::fs::read("/proc/version") {
+        for op in ["encrypt", "pass-encrypt"] {
+            rep.eval(1);
+            rep.nontrivial(format!("cli-proc-input-{}", op).as_bytes());
+            let sc = Scratch::new();
+            sc.write("kr.txt", kr.as_bytes());
+            let (args, pw): (Vec<&str>, &str) = if op == "encrypt" { (vec!["encrypt", "/proc/version", "-t", "bob", "-f", "alice", "-k", "kr.txt", "-o", "out.ktl", "--env-pass"], "alicepw") } else { (vec!["password", "encrypt", "/proc/version", "-o", "out.ktl", "--env-pass"], "filepw") };
+            let o = proc::run(&Cmd::new(&args).env("KESTREL_PASSWORD", pw), &sc.0);
+            let got = sc.read("out.ktl").unwrap_or_default();
+            let good = o.ok() && if op == "encrypt" { matches!(r::read_key_file(&bob.sk, &got), Ok(k) if k.parsed.plaintext == data) } else { got.len() >= 36 && matches!(r::read_pass_file_with_key(&r::pass_key(b"filepw", got[4..36].try_into().unwrap()), &got), Ok(k) if k.plaintext == data) };
+            if !good {
+                rep.violation("cli/path-layout", json!({"kind":"cli-conf","layout":["/proc/version","out.ktl"],"op":op}), format!("kestrel {} of /proc/version ({} bytes, reported size 0): the {}-byte output is not the conforming file of its content ({})", op, data.len(), got.len(), o.summary().chars().take(120).collect::<String>()));
+            }
+        }
+    }
     rep.extra("cli_path_layout_runs", json!(jobs.len()));
 }
 
